@@ -84,6 +84,9 @@ class PrattParser(ABC, Generic[ExprT]):
 
             # Postfix operator
             if next_token.name in self.POSTFIX_OPS:
+                if self.POSTFIX_OPS[next_token.name] < min_prec:
+                    # Binds less tightly than the operator we are an operand of.
+                    break
                 stream.next()
                 left = self.parse_postfix(left, next_token)
                 continue
